@@ -11,6 +11,7 @@ import (
 	"pgregory.net/rapid"
 
 	"mellium.im/xmpp/verifharness/internal/ev"
+	"mellium.im/xmpp/verifharness/internal/xt"
 )
 
 // ------------------------------------------------------------ document trees
@@ -249,6 +250,11 @@ func genDocument(t *rapid.T, e *entry) (doc []byte, classes []string) {
 		doc = root.serialize()
 	}
 	switch rapid.IntRange(0, 11).Draw(t, "lexical") {
+	case 3, 4:
+		// the same document with its character data in other spellings (CDATA
+		// sections, character references, several runs per text)
+		doc = xt.Respell(doc, uint32(rapid.IntRange(0, 1000).Draw(t, "respell")))
+		classes = append(classes, "text-respelled")
 	case 0:
 		if len(doc) > 0 {
 			doc = doc[:rapid.IntRange(0, len(doc)-1).Draw(t, "cut")]
